@@ -366,6 +366,8 @@ def check_C12(run):
 def check_C13(run):
     check_hist_generic(run, [("mixed", "mixed", 300, 6000, RULE_HIST + "; profile mixed (no call reads a structure its own "
                               "transaction wrote): per-call results and final state = serial execution on L0"),
+                             ("bigtx", "bigtx", 150, 3000, RULE_HIST + "; profile bigtx: write transactions of 8-22 calls (up to ~40 "
+                              "records) interleaving buckets and structures with order-sensitive blind writes"),
                              ("raw", "raw", 200, 4000, RULE_HIST + "; profile raw: transactions that read/pop/validate structures "
                               "they already modified; impl = model must hold; spec mismatches are attributed to known finding F21 "
                               "only when the failing call reads a structure written earlier in the same transaction")],
@@ -423,6 +425,8 @@ def check_C19(run):
     hist_suite(run, "opts", ["hist", "-n", n, "-x", "opts"], RULE_HIST + "; every history is executed under all 16 combinations of "
                "{HintKeyValAndRAMIdxMode, HintKeyAndRAMIdxMode} x RWMode x StartFileLoadingMode x SyncEnable; result sequences "
                "(incl. full observations after every reopen) must be identical across combinations, and each run equals model and spec")
+    check_hist_generic(run, [("reopen", "reopen", 300, 6000, RULE_HIST + "; profile reopen under random option combinations, with "
+                              "entries that fill a segment to its last byte followed at once by a reopen")])
 
 
 def check_C20(run):
